@@ -247,7 +247,9 @@ def generated_set(seed, i):
                                    "\tvar c = r.totl;\n\treturn: r.total\n}\n")
         elif m == "triple_duplicate":
             b = rng.randrange(sp.k)
-            files[sp.files[b]] += "\nfn zz_tri()\n{\n}\n\nfn zz_tri()\n{\n}\n\nfn zz_tri()\n{\n}\n\nconst ZZ_TRI: i32 = 1;\nconst ZZ_TRI: i32 = 2;\nconst ZZ_TRI: i32 = 3;\n"
+            files[sp.files[b]] += ("\nfn zz_tri()\n{\n}\n\nfn zz_tri()\n{\n}\n\nfn zz_tri()\n{\n}\n\nconst ZZ_TRI: i32 = 1;\nconst ZZ_TRI: i32 = 2;\nconst ZZ_TRI: i32 = 3;\n"
+                                   "\nfn zz_tri_labels(n: i32) -> i32\n{\n\tvar r = n;\n\tagain:\n\tr = r + 1;\n\tagain:\n\tr = r + 2;\n\tagain:\n\treturn: r\n}\n"
+                                   "\nfn zz_tri_vars() -> i32\n{\n\tvar t = 1;\n\tvar t = 2;\n\tvar t = 3;\n\treturn: t\n}\n")
         elif m == "undefined_in_two_modules":
             for b in range(min(2, sp.k)):
                 files[sp.files[b]] += "\nfn zz_undef%d() -> i32\n{\n\treturn: missing_thing_%d\n}\n" % (b, b)
@@ -804,6 +806,7 @@ def check_locations_structured(s, wd, stats):
     label_texts = {}    # (file, line) -> texts under the single-line Locations that start on that line
     seen_errors = set()
     renamed_reports = 0
+    dup_blamed = {}
     have_all = True
     for line in r.out.decode(errors="replace").splitlines():
         try:
@@ -822,6 +825,14 @@ def check_locations_structured(s, wd, stats):
                 # (a call is located at its callee's name, a cast at its operand...: a leading part will do)
                 if got is not None and not re.search(r"(?<![A-Za-z0-9_])" + re.escape(" ".join(got.split())) + r"(?![A-Za-z0-9_])", " ".join(s["blamed_argument"].split())):
                     viol.append(("wrong_argument_blamed", "the call's wrong argument is %r but the diagnostic underlines %r: %s" % (s["blamed_argument"], got, e[:160])))
+            # n declarations of one name: every surplus one is its own place - two reports that blame the
+            # same place with different earlier declarations mean one of the places is never blamed
+            if e.startswith("DuplicateDeclaration"):
+                _v, ef = seclabels.parse_fields(e)
+                key = (_v, ef.get("name"), ef.get("location"))
+                if key in dup_blamed and dup_blamed[key] != ef.get("previous"):
+                    viol.append(("duplicates_blamed_at_one_place", "%s %s: two reports blame the same place with different earlier declarations: %s" % (_v, ef.get("name"), e[:200])))
+                dup_blamed.setdefault(key, ef.get("previous"))
             # the three uses of the renamed member (mistake same_missing_member_twice) are three places
             if e.startswith("UndefinedMember {") and 'name_of_member: "total", name_of_structure: "ZzRenamed"' in e:
                 _v, ef = seclabels.parse_fields(e)
